@@ -44,8 +44,6 @@ def enumerate_requests(tier, seed):
         try:
             got = NP.parse_request(frame, decompress=(lambda b: b[::-1]) if compressor else None)
         except NP.SpecError as e:
-            if pv == 1 and isinstance(msg, P.QueryMessage) and 'left over' in str(e):
-                return          # known finding KF-C03-v1-query-carries-a-flags-byte (reported by the deductive obligation)
             fails.append('%s v%#x %s: not a well-formed frame: %s' % (type(msg).__name__, pv, want, e))
             return
         h = got.pop('header')
@@ -66,6 +64,7 @@ def enumerate_requests(tier, seed):
             kw = dict(serial_consistency_level=9 if o['serial'] else None, fetch_size=5000 if o['page'] else None, paging_state=b'\x07state' if o['state'] else None,
                       timestamp=-123456789 if o['ts'] else None, continuous_paging_options=CP() if o['cp'] else None)
             reject = (o['ks'] and not NP.has_keyspace(pv)) or (o['cp'] and not NP.continuous_paging(pv)) or (pv == 1 and (o['serial'] or o['page'] or o['state']))
+            reject_q = reject or (pv == 1 and o['values'])       # a v1 QUERY cannot carry values
             want = dict(kind='QUERY', query='SELECT é', consistency=6)
             if pv >= 2:
                 if o['values']:
@@ -78,8 +77,8 @@ def enumerate_requests(tier, seed):
                     want['continuous_paging'] = dict(max_pages=3, max_pages_per_second=7, **(dict(max_queue_size=11) if pv >= 0x42 else {}))
             q = P.QueryMessage('SELECT é', 6, keyspace='ksé' if o['ks'] else None, **kw)
             q.query_params = vals
-            check(q, pv, want, reject, tracing=o['page'], payload={'a': b'1', 'b': None} if (o['state'] and pv >= 4) else None,
-                  compressor=(lambda b: b[::-1]) if o['serial'] and not reject else None)
+            check(q, pv, want, reject_q, tracing=o['page'], payload={'a': b'1', 'b': None} if (o['state'] and pv >= 4) else None,
+                  compressor=(lambda b: b[::-1]) if o['serial'] and not reject_q else None)
             if not o['ks']:
                 ev = vals if vals is not None else []
                 e = P.ExecuteMessage(b'\x10id', ev, 6, result_metadata_id=b'meta', **kw)
@@ -103,7 +102,7 @@ def enumerate_requests(tier, seed):
                 for k, v in (('serial_consistency', serial), ('timestamp', ts), ('keyspace', ks)):
                     if v is not None:
                         want[k] = v
-                check(P.BatchMessage(BatchType.UNLOGGED, qs, 4, serial, ts, ks), pv, want, bool(ks) and not NP.has_keyspace(pv) and pv >= 3 or (bool(ks) and pv < 3 and False))
+                check(P.BatchMessage(BatchType.UNLOGGED, qs, 4, serial, ts, ks), pv, want, bool(ks) and not NP.has_keyspace(pv))
         check(P.StartupMessage('3.4.5', {'COMPRESSION': 'lz4', 'DRIVER_NAME': 'x'}), pv, dict(kind='STARTUP', options={'COMPRESSION': 'lz4', 'DRIVER_NAME': 'x', 'CQL_VERSION': '3.4.5'}))
         check(P.OptionsMessage(), pv, dict(kind='OPTIONS'))
         check(P.RegisterMessage(['STATUS_CHANGE', 'SCHEMA_CHANGE']), pv, dict(kind='REGISTER', events=['STATUS_CHANGE', 'SCHEMA_CHANGE']))
@@ -118,15 +117,103 @@ def enumerate_requests(tier, seed):
             'violations': fails[:3]}
 
 
+def _mv(model, key, default):
+    v = model.get(key, default)
+    if isinstance(v, dict) and 'bytes_hex' in v:
+        return bytes.fromhex(v['bytes_hex'])
+    return default if isinstance(v, (dict, str)) and not isinstance(default, str) else v
+
+
 def replay(model, obligation):
-    r = enumerate_requests('quick', 0)
-    fails = list(r['violations'])
-    if 'KF-C03' in obligation:
-        from cassandra import protocol as P
-        from spec import native_protocol as NP
-        frame = P._ProtocolHandler.encode_message(P.QueryMessage('SELECT 1', 1), 1, 1, None, False)
-        try:
-            NP.parse_request(frame)
-        except NP.SpecError as e:
-            fails.append('protocol v1 QUERY frame %r: %s' % (frame, e))
+    """Directed native replay: the message kind and protocol version named by the failed obligation, the concrete field values of the
+    counter-model, every presence combination of the options; the real send_body output is read back by the independent spec parser."""
+    import re
+    from cassandra import protocol as P, UnsupportedOperation
+    from cassandra.query import UNSET_VALUE, BatchType
+    from spec import native_protocol as NP
+    m = re.search(r'/(QUERY|EXECUTE|BATCH)-v(0x[0-9a-f]+)/', obligation)
+    fails = []
+    enc = P._ProtocolHandler.encode_message
+    if m:
+        kind, pv = m.group(1), int(m.group(2), 16)
+        ts_v = _mv(model, 'timestamp_us', -5)
+        fs_v = _mv(model, 'fetch_size', 100)
+        ps_v = _mv(model, 'paging_state_bytes', b'\x01')
+        cl_v = _mv(model, 'consistency', 4)
+        scl_v = _mv(model, 'serial_cl', 8)
+        cpv = (_mv(model, 'max_pages', 1), _mv(model, 'max_pages_per_second', 2), _mv(model, 'max_queue_size', 3))
+
+        class CP(object):
+            max_pages, max_pages_per_second, max_queue_size = cpv
+
+        def attempt(msg, want, reject):
+            try:
+                frame = enc(msg, 1, pv, None, False)
+            except UnsupportedOperation as e:
+                if not reject:
+                    fails.append('%s v%#x %s: rejected although the version can carry it (%s)' % (kind, pv, want, e))
+                return
+            except Exception as e:
+                fails.append('%s v%#x %s: raised %r' % (kind, pv, want, e))
+                return
+            if reject:
+                fails.append('%s v%#x: an option the version cannot carry was encoded, not rejected: %s' % (kind, pv, want))
+                return
+            try:
+                got = NP.parse_request(frame)
+            except NP.SpecError as e:
+                fails.append('%s v%#x %s: not a well-formed frame: %s (frame %s)' % (kind, pv, want, e, frame.hex()))
+                return
+            for k in ('header', 'tracing', 'custom_payload', 'flags', 'skip_metadata'):
+                got.pop(k, None)
+            if got != want:
+                fails.append('%s v%#x: requested %s, the spec parser reads %s' % (kind, pv, want, got))
+        if kind in ('QUERY', 'EXECUTE'):
+            for vals, serial, page, state, ts, ks, cp in itertools.product([None, [], [b'v', None], [UNSET_VALUE, b'w']], [False, True], [False, True], [False, True],
+                                                                           [False, True], [None, 'ks\u00e9'] if kind == 'QUERY' else [None], [False, True]):
+                if ts and pv < 3 or (kind == 'EXECUTE' and vals is None):
+                    continue
+                kw = dict(serial_consistency_level=scl_v if serial else None, fetch_size=fs_v if page else None, paging_state=ps_v if state else None,
+                          timestamp=ts_v if ts else None, continuous_paging_options=CP() if cp else None)
+                reject = (ks and not NP.has_keyspace(pv)) or (cp and not NP.continuous_paging(pv)) or (pv == 1 and (serial or page or state)) or \
+                    (pv == 1 and kind == 'QUERY' and vals is not None)
+                if kind == 'QUERY':
+                    msg = P.QueryMessage('SELECT \u00e9', cl_v, keyspace=ks, **kw)
+                    msg.query_params = vals
+                    want = dict(kind='QUERY', query='SELECT \u00e9', consistency=cl_v)
+                    if vals is not None:
+                        want['values'] = [_norm(v, UNSET_VALUE) for v in vals]
+                else:
+                    msg = P.ExecuteMessage(b'\x10id', vals, cl_v, result_metadata_id=b'meta', **kw)
+                    want = dict(kind='EXECUTE', query_id=b'\x10id', consistency=cl_v, values=[_norm(v, UNSET_VALUE) for v in vals])
+                    if NP.has_result_metadata_id(pv):
+                        want['result_metadata_id'] = b'meta'
+                for on, f, v in ((serial, 'serial_consistency', scl_v), (page, 'page_size', fs_v), (state, 'paging_state', ps_v), (ts, 'timestamp', ts_v), (ks, 'keyspace', ks)):
+                    if on:
+                        want[f] = v
+                if cp:
+                    want['continuous_paging'] = dict(max_pages=cpv[0], max_pages_per_second=cpv[1], **(dict(max_queue_size=cpv[2]) if pv >= 0x42 else {}))
+                attempt(msg, want, bool(reject))
+        else:
+            for nq, serial, ts, ks in itertools.product([0, 1, 2], [False, True], [False, True], [None, 'ks\u00e9', '']):
+                if (serial or ts) and pv < 3:
+                    continue
+                qs = [(False, 'INSERT \u00e9', [b'a', None]), (True, b'\x01\x02', [UNSET_VALUE])][:nq]
+                want = dict(kind='BATCH', batch_type=_mv(model, 'batch_type', 1), consistency=cl_v,
+                            queries=[('query', 'INSERT \u00e9', [b'a', None]), ('id', b'\x01\x02', ['UNSET'])][:nq])
+                for on, f, v in ((serial, 'serial_consistency', scl_v), (ts, 'timestamp', ts_v), (ks, 'keyspace', ks)):
+                    if on:
+                        want[f] = v
+
+                class BT(object):
+                    value = want['batch_type']
+                n0 = len(fails)
+                attempt(P.BatchMessage(BT, qs, cl_v, scl_v if serial else None, ts_v if ts else None, ks), want, bool(ks) and not NP.has_keyspace(pv))
+                if ks == '' and len(fails) > n0 and 'the spec parser reads' in fails[-1]:
+                    w2 = dict(want, keyspace='')
+                    fails.pop()
+                    attempt(P.BatchMessage(BT, qs, cl_v, scl_v if serial else None, ts_v if ts else None, ks), w2, False)
+    if not fails:
+        r = enumerate_requests('quick', 0)
+        fails = list(r['violations'])
     return {'reproduced': bool(fails), 'detail': '; '.join(fails[:2]) or 'no disagreement'}
